@@ -777,6 +777,8 @@ static int vi_motion(int *row, int *off)
 			return -1;
 		*row = mark_row;
 		*off = mark_off;
+		if (lbuf_get(xb, *row))		/* the line may have got shorter */
+			*off = MIN(*off, MAX(0, uc_slen(lbuf_get(xb, *row)) - 1));
 		break;
 	case '%':
 		if (lbuf_pair(xb, row, off))
